@@ -232,7 +232,7 @@ void build_world(World& W, Choices& c, Report& r)
   }
   else
   {
-    unsigned nsinks = 1 + c.pick(3);
+    unsigned nsinks = is_prop("C16") ? 2 + c.pick(2) : 1 + c.pick(3);
     for (unsigned k = 0; k < nsinks; ++k)
     {
       bool ov = is_prop("C16") && k == 1;
@@ -270,6 +270,7 @@ void build_world(World& W, Choices& c, Report& r)
       LoggerInfo L;
       L.name = "lg" + std::to_string(k);
       unsigned mask = 1 + c.pick((1u << nsinks) - 1);
+      if (is_prop("C16") && c.pick(3) != 0) mask = (1u << nsinks) - 1; // usually all sinks: they must be able to disagree
       std::vector<std::shared_ptr<quill::Sink>> sv;
       for (unsigned b = 0; b < nsinks; ++b) if (mask & (1u << b)) { L.sinks.push_back(static_cast<int>(b)); sv.push_back(W.sinks[b].user_ref); }
       char const* pat = is_prop("C16") ? "%(log_level)|%(log_level_short_code)|%(message)" : "%(message)";
